@@ -85,13 +85,30 @@ def gen_tone(rng):
         f = fch1 + (1 if asc else -1) * (k + frac) * cbw
         dur = spb * nb / sr
         drift = rng.choice([-1, 1]) * rng.uniform(1.0, 3.0) * (cbw / L) / dur
+    fast = (not many) and drift == 0.0 and rng.random() < 0.2
+    if fast:
+        # a fast chirp: 3.2-4.5 fine bins per spectrum over eight spectra of a 64-point fine FFT, the whole sweep well inside the coarse channel.
+        # Where each spectrum finds it shows WHEN its samples were taken: a sub-block written at the wrong place in the block moves it by
+        # more than the tolerance (one and a half bins plus half the sweep of a spectrum)
+        L = 64; I = 1; rows = 8; spb = L * rows
+        per_row = rng.uniform(3.2, 4.5) * rng.choice([-1, 1])
+        frac = -per_row * rows / 2 / L + rng.uniform(-0.02, 0.02)
+        f = fch1 + (1 if asc else -1) * (k + frac) * cbw
+        dur = spb * nb / sr
+        drift = (1 if asc else -1) * per_row * rows * (cbw / L) / dur
     c = dict(sample_rate=sr, fch1=fch1, ascending=asc, nb=nb, taps=taps, nchans=nchans, start_chan=start, nants=nants, num_pols=num_pols, nbits=nbits,
              block_size=nants * nchans * bps * spb, blocks_per_file=1, num_subblocks=rng.choice([1, 2]), seed=rng.randint(0, 999),
              noise=[[0.0, 0.3]], signals=[dict(f_start=f, drift=drift, level=2.0, phase=rng.uniform(0, 6))], num_blocks=1, load_template=False,
              fftlength=L, int_factor=I, tone_hz=f, drift=drift, k=k, frac=frac, directio=rng.random() < 0.4,
-             req=dict(fwhm=8 if nbits == 4 else 32))
+             req=dict(fwhm=8 if nbits == 4 else 32), fast=fast)
     if nants > 1:
         c["delays"] = [0] * nants
+    if fast or (drift and rng.random() < 0.6):
+        # a drifting tone in a block cut into 3 / 5 / 7 sub-blocks, which mostly leaves a shorter last one: every spectrum must still show the
+        # tone where f_start + drift*t puts it (statistics frozen for a constant gain, as below)
+        c["num_subblocks"] = rng.choice([3, 5, 7])
+        c["req"]["period"] = -1
+        c["dig"] = dict(period=-1)
     if many:
         # quantiser statistics frozen after the first call: a constant gain, so that cutting the block up adds no amplitude modulation of its own
         c["num_subblocks"] = spb // taps
@@ -169,8 +186,8 @@ def run(ctx):
         timpl.extend(part)
     for c, r, sv in zip(tcases, timpl, svals):
         ctx.count(dict(k="tone", c=c), nontrivial=(c["start_chan"] > 0 or not c["ascending"]))
-        ctx.tally("tone_kind", "chirp" if c["drift"] else "tone"); ctx.tally("fftlength", c["fftlength"]); ctx.tally("int_factor", c["int_factor"])
-        ctx.tally("tone_bits_pols", "%d/%d" % (c["nbits"], c["num_pols"])); ctx.tally("subblocks", "maximal partition" if c["num_subblocks"] > 2 else c["num_subblocks"])
+        ctx.tally("tone_kind", ("fast chirp" if c.get("fast") else "chirp") if c["drift"] else "tone"); ctx.tally("fftlength", c["fftlength"]); ctx.tally("int_factor", c["int_factor"])
+        ctx.tally("tone_bits_pols", "%d/%d" % (c["nbits"], c["num_pols"])); ctx.tally("subblocks", "maximal partition" if c["num_subblocks"] > 7 else c["num_subblocks"])
         fine = r["fine_hz"]
         rows = len(r["indep_peaks_hz"])
         dt_row = c["fftlength"] * c["int_factor"] * r["tbin"]
